@@ -170,8 +170,15 @@ func lifecycleCases() []raceCase {
 }
 
 func addressCases(thorough bool) []raceCase {
+	// The registrations enter at RaftCluster.PutStore - what the gRPC handler calls after its own
+	// checks - so that both queue on the first cluster lock a registration takes, not on the
+	// read-locked IsRunning test of the handler (after which they would run free and race in real
+	// time). thorough also runs them through the handler.
+	putN := func(id uint64, addr string) *step {
+		return &step{Cmd: "put", Via: "cluster", ID: id, Addr: addr, Version: "5.0.0"}
+	}
 	moveX := func() *step {
-		return &step{Cmd: "put", Via: "grpc", ID: rX, Addr: "tikv-b:20160", Version: "5.0.1", Labels: lbl("zone", "z2")}
+		return &step{Cmd: "put", Via: "cluster", ID: rX, Addr: "tikv-b:20160", Version: "5.0.1", Labels: lbl("zone", "z2")}
 	}
 	type holder struct {
 		name  string
@@ -216,6 +223,19 @@ func addressCases(thorough bool) []raceCase {
 					return l
 				},
 				w: func() [][]*step { return [][]*step{one(h.op()), one(p.a()), one(p.b())} }})
+			if thorough && hi == 0 {
+				out = append(out, raceCase{name: h.name + "-holds-lock|" + p.name + "|through-grpc", names: []string{"W", "P1", "P2"},
+					setup: out[len(out)-1].setup,
+					w: func() [][]*step {
+						a, b := p.a(), p.b()
+						for _, st := range []*step{a, b} {
+							if st.Cmd == "put" {
+								st.Via = "grpc"
+							}
+						}
+						return [][]*step{one(h.op()), one(a), one(b)}
+					}})
+			}
 		}
 	}
 	return out
